@@ -904,8 +904,10 @@ fn exec_cfg<C: Ws>(t: &RangeTrace, ctx: &mut Ctx, skip_inspect: bool) -> Result<
     // ---------------- seeker (C07): owned, borrowed and simulator-store backends
     if ctx.on("C07") && (!snaps.is_empty() || end_snap.is_some()) {
         macro_rules! seeker {
-            ($dec:expr, $what:expr) => {{
+            ($dec:expr, $what:expr) => { seeker!($dec, $what, |p: usize| p) };
+            ($dec:expr, $what:expr, $map:expr) => {{
                 let mut d = $dec;
+                let map_pos = $map;
                 ctx.stats.hit($what);
                 let mut all: Vec<&Snap> = snaps.iter().collect();
                 if let Some(e) = end_snap.as_ref() { all.push(e); }
@@ -917,7 +919,7 @@ fn exec_cfg<C: Ws>(t: &RangeTrace, ctx: &mut Ctx, skip_inspect: bool) -> Result<
                     let state = constriction::stream::queue::RangeCoderState::<C::W, C::S>::new(s_from(s.lower), s_from(s.range)).expect("valid state");
                     ctx.stats.hit("op-seek");
                     match s.inverted { 0 => {}, 1 => ctx.stats.hit("probe-snapshot-inverted-1"), 2 => ctx.stats.hit("probe-snapshot-inverted-2"), _ => ctx.stats.hit("probe-snapshot-inverted-3plus") }
-                    if d.seek((s.pos, state)).is_err() {
+                    if d.seek((map_pos(s.pos), state)).is_err() {
                         viol!(ctx, "C07", "range-seek-refused", "seek to snapshot after {} symbols (pos {}) refused; data has {} words", s.at, s.pos, stored_w.len());
                     }
                     if s.at == message.len() && suffix_len == 0 {
@@ -952,7 +954,16 @@ fn exec_cfg<C: Ws>(t: &RangeTrace, ctx: &mut Ctx, skip_inspect: bool) -> Result<
                 }
             }};
         }
-        match t.seeks.len() % 3 {
+        match (t.seeks.len() + t.ops.len() / 3) % 4 {
+            3 => {
+                // the same words stored back to front and consumed from the end of the buffer:
+                // every recorded position p corresponds to len - p
+                let mut rev = stored_w.clone();
+                rev.reverse();
+                let len = rev.len();
+                let cur = Cursor::new_at_pos(rev, len - start).expect("in range");
+                seeker!(RangeDecoder::<C::W, C::S, _>::with_backend(constriction::backends::Reverse(cur)).unwrap_infallible(), "seeker-reversed-cursor", |p: usize| len - p)
+            }
             0 => seeker!(RangeDecoder::<C::W, C::S, _>::with_backend(Cursor::new_at_pos(stored_w.clone(), start).expect("in range")).unwrap_infallible(), "seeker-owned-cursor"),
             1 => seeker!(RangeDecoder::<C::W, C::S, _>::with_backend(Cursor::new_at_pos(&stored_w[..], start).expect("in range")).unwrap_infallible(), "seeker-borrowed-cursor"),
             _ => {
@@ -1104,7 +1115,7 @@ pub fn generate(seed: u64, prop: &str, thorough: bool) -> RangeTrace {
     let w_snap = if prop == "C07" { 35 } else { 0 };
     let w_batch = 6;
     let w_reasm = if matches!(prop, "C02" | "C06" | "C08") { 4 } else { 0 };
-    let can_clear = matches!(prop, "C02" | "C06") && sink == Sink::Vec && prefix.is_empty();
+    let can_clear = sink == Sink::Vec && prefix.is_empty();
     let steer = bias.chance(2, 3);
     let goal = bias.below(4);
     let adversarial = bias.chance(1, 3);
